@@ -6,20 +6,32 @@
 EXTENDS Naturals, Integers, Sequences, FiniteSets, TLC, Json, IOUtils
 Trace == ndJsonDeserialize(IOEnv.TRACE)
 Prop == IOEnv.PROP
-VARIABLES l, bi, nodes, topo, pubs, lastAnn, allSent, allReads, frozen, bad
-vars == <<l, bi, nodes, topo, pubs, lastAnn, allSent, allReads, frozen, bad>>
+VARIABLES l, bi, nodes, topo, pubs, lastAnn, allSent, allReads, frozen, bad,
+          cuts,     \* <<link, seq>>: the stream of the link was replaced / broke at this global sequence number
+          brokenL   \* links whose stream broke and was not re-opened yet
+vars == <<l, bi, nodes, topo, pubs, lastAnn, allSent, allReads, frozen, bad, cuts, brokenL>>
 Init == l = 1 /\ bi = -1 /\ nodes = {} /\ topo = {} /\ pubs = {} /\ lastAnn = {} /\ allSent = <<>> /\ allReads = <<>> /\ frozen = FALSE /\ bad = {}
+        /\ cuts = {} /\ brokenL = {}
 Ev == Trace[l]
 Is(e) == l <= Len(Trace) /\ Ev.e = e
 SeqSet(s) == {s[i] : i \in 1..Len(s)}
-Nbr(n) == {m \in nodes : {n, m} \in topo}
+Nbr(n) == {m \in nodes : {n, m} \in topo \ brokenL}
+\* frames up to this sequence number went over an earlier stream of the link: a new stream starts from the initial set
+CutSeq(a, b) == LET S == {c[2] : c \in {x \in cuts : x[1] = {a, b}}} IN IF S = {} THEN 0 ELSE CHOOSE m \in S : \A k \in S : k <= m
 Reset == /\ Is("reset") /\ l' = l + 1 /\ bi' = Ev.b /\ nodes' = SeqSet(Ev.nodes) /\ topo' = {{e[1], e[2]} : e \in SeqSet(Ev.topo)}
          /\ pubs' = {} /\ lastAnn' = {} /\ allSent' = <<>> /\ allReads' = <<>> /\ frozen' = FALSE /\ UNCHANGED bad
-Skip == /\ (Is("init") \/ Is("toggle") \/ Is("inject") \/ Is("relink")) /\ l' = l + 1
-        /\ UNCHANGED <<bi, nodes, topo, pubs, lastAnn, allSent, allReads, frozen, bad>>
-LinkUp == Is("linkup") /\ l' = l + 1 /\ topo' = topo \cup {{Ev.a, Ev.b}} /\ UNCHANGED <<bi, nodes, pubs, lastAnn, allSent, allReads, frozen, bad>>
-Freeze == Is("freeze") /\ l' = l + 1 /\ frozen' = TRUE /\ UNCHANGED <<bi, nodes, topo, pubs, lastAnn, allSent, allReads, bad>>
-Publish == Is("publish") /\ l' = l + 1 /\ pubs' = pubs \cup {<<Ev.n, Ev.data>>} /\ UNCHANGED <<bi, nodes, topo, lastAnn, allSent, allReads, frozen, bad>>
+         /\ cuts' = {} /\ brokenL' = {}
+Skip == /\ (Is("init") \/ Is("toggle") \/ Is("inject")) /\ l' = l + 1
+        /\ UNCHANGED <<bi, nodes, topo, pubs, lastAnn, allSent, allReads, frozen, bad, cuts, brokenL>>
+\* the stream of a link breaks / is re-opened: what was announced over the old stream no longer counts
+Restream == /\ (Is("relink") \/ Is("break")) /\ l' = l + 1
+            /\ cuts' = cuts \cup {<<{Ev.a, Ev.b}, Ev.seq>>}
+            /\ lastAnn' = {x \in lastAnn : {x[1], x[2]} # {Ev.a, Ev.b}}
+            /\ brokenL' = IF Ev.e = "break" THEN brokenL \cup {{Ev.a, Ev.b}} ELSE brokenL \ {{Ev.a, Ev.b}}
+            /\ UNCHANGED <<bi, nodes, topo, pubs, allSent, allReads, frozen, bad>>
+LinkUp == Is("linkup") /\ l' = l + 1 /\ topo' = topo \cup {{Ev.a, Ev.b}} /\ UNCHANGED <<bi, nodes, pubs, lastAnn, allSent, allReads, frozen, bad, cuts, brokenL>>
+Freeze == Is("freeze") /\ l' = l + 1 /\ frozen' = TRUE /\ UNCHANGED <<bi, nodes, topo, pubs, lastAnn, allSent, allReads, bad, cuts, brokenL>>
+Publish == Is("publish") /\ l' = l + 1 /\ pubs' = pubs \cup {<<Ev.n, Ev.data>>} /\ UNCHANGED <<bi, nodes, topo, lastAnn, allSent, allReads, frozen, bad, cuts, brokenL>>
 \* last subscription announcement per directed link, folded over the new frames
 RECURSIVE FoldAnn(_, _, _)
 FoldAnn(la, s, i) == IF i > Len(s) THEN la
@@ -34,7 +46,7 @@ Q ==
   /\ LET subs == SeqSet(Ev.subs)
          sent == allSent \o Ev.sent
          reads == allReads \o Ev.reads
-         la == FoldAnn(lastAnn, Ev.sent, 1)
+         la == FoldAnn(lastAnn, SelectSeq(Ev.sent, LAMBDA f : f.seq > CutSeq(f.from, f.to)), 1)
          got(n) == Ev.got[n]
          realPubSent == {i \in 1..Len(sent) : sent[i].t = "pub" /\ ~sent[i].inj}
          b27 == {<<"C27", "a subscriber was handed a message that is not an authentic published message of its channel", n>> :
@@ -56,11 +68,14 @@ Q ==
                     n \in {x \in nodes \ subs : \E a \in la : a[1] = x /\ a[3] = TRUE}}
                 \cup {<<"C29", "a subscribed node has not announced the channel to a neighbour", n>> :
                     n \in {x \in subs : \E m \in Nbr(x) : <<x, m, TRUE>> \notin la}}
+                \cup {<<"C29", "a node without local subscription is still sent the channel's messages by a neighbour that believes it wants them", n>> :
+                    n \in {Ev.sent[j].to : j \in {k \in 1..Len(Ev.sent) : frozen /\ Ev.sent[k].t = "pub" /\ ~Ev.sent[k].inj /\ Ev.sent[k].ch = "verif-chan"
+                                                                          /\ Ev.sent[k].to \in nodes \ subs}}}
                 \cup {<<"C29", "a handler was invoked after its subscription was released", n>> : n \in {x \in nodes \ subs : frozen /\ Len(got(x)) > 0}}
      IN /\ allSent' = sent /\ allReads' = reads /\ lastAnn' = la
         /\ bad' = bad \cup b27 \cup b28 \cup b29
-  /\ UNCHANGED <<bi, nodes, topo, pubs, frozen>>
-Next == Reset \/ Skip \/ LinkUp \/ Freeze \/ Publish \/ Q
+  /\ UNCHANGED <<bi, nodes, topo, pubs, frozen, cuts, brokenL>>
+Next == Reset \/ Skip \/ Restream \/ LinkUp \/ Freeze \/ Publish \/ Q
 Spec == Init /\ [][Next]_vars
 NoViolation == \A b \in bad : b[1] # Prop
 Consumed == TLCGet("stats").diameter - 1 = Len(Trace)
